@@ -291,4 +291,78 @@ theorem C09_documented_nesting (X Y : DirClass) (hxy : (X, Y) ∈ documentedOrde
     [a, b].Sublist (siteMiddleware addsMiddleware (execSeq D blocks) i j) :=
   C09_before_wraps blocks i j a b (C09_documented_order X Y hxy a b ha hb) hma hmb
 
+/-! ### load histories in one process (stream `c09.history`) -/
+
+/-- A load hands the directive list on unchanged, so after ANY history of loads — accepted or
+rejected, whatever their contents — the process still has the list it started with. -/
+theorem C09_history_keeps_list (D0 : List Dir) (h : List (List Block)) : (runHistory D0 h).1 = D0 := by
+  induction h generalizing D0 with
+  | nil => rfl
+  | cons b rest ih => simp only [runHistory, loadStep]; exact ih D0
+
+/-- … hence a Casketfile loaded after any history is treated exactly as if it were the first load
+of the process: same verdict of the parser, same sequence of setup calls. -/
+theorem C09_load_independent_of_history (D0 : List Dir) (h : List (List Block)) (blocks : List Block) :
+    loadOnce (runHistory D0 h).1 blocks = loadOnce D0 blocks := by
+  rw [C09_history_keeps_list]
+
+/-- a Casketfile with a line of a directive that is not in the list is rejected (its setup
+functions never run); one whose directives are all listed is loaded with `execSeq` -/
+theorem C09_load_rejects_unknown (D0 : List Dir) (w : Dir) (hw : D0.contains w = false) (hr : D0.contains "root" = true) :
+    loadOnce D0 (typoLoad w) = .rejected w := by
+  have hw' : w ∉ D0 := by simpa using hw
+  have hr' : "root" ∈ D0 := by simpa using hr
+  simp [loadOnce, typoLoad, firstUnknown, List.find?, hw', hr']
+
+theorem C09_load_accepts_listed (D0 : List Dir) (blocks : List Block)
+    (h : ∀ b ∈ blocks, ∀ l ∈ b.lines, D0.contains l.dir = true) :
+    loadOnce D0 blocks = .loaded (execSeq D0 blocks) := by
+  have hn : firstUnknown D0 blocks = none := by
+    induction blocks with
+    | nil => rfl
+    | cons b bs ih =>
+      have hb : b.lines.find? (fun l => !D0.contains l.dir) = none := by
+        rw [List.find?_eq_none]
+        intro l hl
+        have := h b (List.mem_cons_self ..) l hl
+        simpa using this
+      simp only [firstUnknown, hb]
+      exact ih fun b' hb' => h b' (List.mem_cons_of_mem _ hb')
+  simp [loadOnce, hn]
+
+/-- over the regenerated list the model predicts the documented observation for every probe
+scenario (`decide` over the complete tables) -/
+theorem pairs_predict_documented :
+    (scenarios.all fun s => pairPrediction D s == s.documented) = true := by
+  decide
+
+/-- judge of `c09.pairs` on the model's answers -/
+theorem C09_pairs_model_verdict_ok (s : Scenario) (hs : s ∈ scenarios) :
+    pairVerdict s (pairPrediction D s) = "ok" := by
+  have hd : pairPrediction D s = s.documented := by
+    simpa using List.all_eq_true.mp pairs_predict_documented s hs
+  simp [pairVerdict, hd]
+
+/-- Model and judge of `c09.history` are one spec: whatever was loaded before (any history, not
+only the rejected Casketfiles the stream generates), the site loaded afterwards shows the
+documented nesting and the list is the documented one. -/
+theorem C09_history_model_verdict_ok (h : List (List Block)) (s : Scenario) (hs : s ∈ scenarios) :
+    historyVerdict D s (pairPrediction (runHistory D h).1 s) (runHistory D h).1 = "ok" := by
+  rw [C09_history_keeps_list]
+  have hd : pairPrediction D s = s.documented := by
+    simpa using List.all_eq_true.mp pairs_predict_documented s hs
+  simp [historyVerdict, hd]
+
+/-- test (non-vacuity): the typos the stream uses are rejected, a valid site is loaded, and a
+process whose list had been permuted by a rejected load (what a "did you mean" helper sorting the
+shared slice would do: `basicauth` moved to the front) is judged bad -/
+example : loadOnce D (typoLoad "basicauht") = .rejected "basicauht" := by decide
+example : (runHistory D [typoLoad "basicauht", typoLoad "gzi"]).2 = [.rejected "basicauht", .rejected "gzi"] := by decide
+example :
+    let s : Scenario := ⟨"rewrite-before-basicauth", "rewrite", "basicauth", "401", "200"⟩
+    let D' := "basicauth" :: D.filter (· != "basicauth")
+    historyVerdict D s (pairPrediction D' s) D' =
+      "bad:documented-order-after-history:rewrite does not act before/around basicauth in a site loaded after rejected Casketfiles" := by
+  decide
+
 end Casket.Props.C09
